@@ -212,7 +212,7 @@ SPECIAL = [
         {"name": "id", "type": "int"}, {"name": "n", "type": {"type": "int"}, "default": 5}, {"name": "s", "type": {"type": "string", "note": "x"}, "default": "dflt"},
         {"name": "b", "type": {"type": "boolean"}, "default": False}, {"name": "d", "type": {"type": "double"}, "default": 0.5}, {"name": "by", "type": {"type": "bytes"}, "default": "\u00ff"}]}),
     ("alias-equal-to-sibling-name", {"type": "record", "name": "Parcel", "fields": [
-        {"name": "id", "type": "string"}, {"name": "size", "type": "int", "default": 1}, {"name": "weight", "type": "int", "default": 0, "aliases": ["size", "mass"]},
+        {"name": "id", "type": "string"}, {"name": "size", "type": "int", "default": 1}, {"name": "weight", "type": "int", "default": 5, "aliases": ["size", "mass"]},
         {"name": "mass", "type": "int", "default": 9}]}),
     ("null-branch-in-object-form", {"type": "record", "name": "ON", "fields": [
         {"name": "u", "type": [{"type": "null"}, "string"]}, {"name": "v", "type": ["int", {"type": "null", "note": "x"}]},
